@@ -168,8 +168,8 @@ def _real_run(d, style, entries, cites, m, entry_point):
             with open('db.bib', 'w', encoding='utf-8') as f:
                 f.write(text)
             bbl = B.format_from_files(['db.bib'], style=sty, citations=[S(c) for c in cites], min_crossrefs=m)
-    a, b = U.parse_probes(out.getvalue())
-    return {'bbl': bbl, 'after_read': a, 'final': b, 'reports': sorted(str(e) for e in cap)}
+    a, stages, b = U.parse_probes(out.getvalue())
+    return {'bbl': bbl, 'after_read': a, 'stages': stages, 'final': b, 'reports': sorted(str(e) for e in cap)}
 
 def impl_real(arg):
     entries, cites, m, style, entry_point = arg
@@ -180,7 +180,8 @@ def impl_real(arg):
         def run():
             r = _real_run(d, style, entries, cites, m, entry_point)
             other = _real_run(d, style, entries, cites, m, 1 if entry_point != 1 else 2)
-            return [r['after_read'], [[k, s] for k, s in r['final']], U.bibitems(r['bbl']), int(r['bbl'] == other['bbl']), len(r['reports'])]
+            return [r['after_read'], [[k, s] for k, s in r['final']], U.bibitems(r['bbl']), int(r['bbl'] == other['bbl']), len(r['reports']),
+                    [[[k, s] for k, s in g] for g in r['stages']]]
         return call_impl(run)
 
 def impl_sort(arg):
@@ -382,9 +383,10 @@ def oracle(fn, arg, out):
             return 'the engine raised on a well-formed database / citation list'
         entries, cites, m, style, ep = arg
         style = S(style)
-        after_read, final, items, same_bbl, nrep = out[1]
+        after_read, final, items, same_bbl, nrep, stages = out[1]
         after_read = [S(x) for x in after_read]; items = [S(x) for x in items]
         final = [(S(k), S(s)) for k, s in final]
+        stages = [[(S(k), S(s)) for k, s in g] for g in stages]
         pe = [(S(k), S(t), [(S(n), S(v)) for n, v in f]) for k, t, f in entries]
         # a citation is identified up to letter case (which spelling the item carries is C05's subject)
         low = lambda l: [x.lower() for x in l]
@@ -395,14 +397,20 @@ def oracle(fn, arg, out):
             return tag + 'bibliography items %r are not one per resolved citation %r' % (items, want)
         if [k for k, _ in final] != items:
             return 'items %r are not in the final citation order %r' % (items, [k for k, _ in final])
-        keys = dict((k.lower(), s) for k, s in final)
-        if _sorting(style):
-            exp = sorted(want, key=lambda k: keys[k])
-            if litems != exp:
-                return 'sorting style: items %r, expected sort-key order with ties in citation order %r (keys %r)' % (items, exp, keys)
-        else:
-            if litems != want:
-                return 'non-sorting style: items %r not in citation order %r' % (items, want)
+        # every SORT of the style: the order just before it, stably sorted by the keys it sees, is the order the next
+        # probe observes (for a style with one SORT: sort-key order with ties in citation order)
+        cur = want
+        if len(stages) != _sorting(style):
+            return 'the style has %d SORT commands, the probes saw %d' % (_sorting(style), len(stages))
+        for n, g in enumerate(stages):
+            if low([k for k, _ in g]) != cur:
+                return 'before SORT %d the citations are %r, expected %r (only READ and SORT may change the order)' % (n + 1, [k for k, _ in g], cur)
+            kd = dict((k.lower(), sk) for k, sk in g)
+            cur = sorted(cur, key=lambda k: kd[k])
+        if litems != cur:
+            if _sorting(style):
+                return 'sorting style: items %r, expected sort-key order with ties in the previous order %r (keys %r)' % (items, cur, stages[-1])
+            return 'non-sorting style: items %r not in citation order %r' % (items, cur)
         if not same_bbl:
             return 'the two entry points (via .aux / explicit call) produced different bytes'
         return None
@@ -577,7 +585,7 @@ def gen_engine(tier, rng):
             yield ('engine_file', 2, [files, [3, names[0] + U.SUFFIX[fmt], style, co, fo, m]])
 
 # ---- realistic databases for the shipped styles
-AUTHORS = ['Knuth, Donald E.', 'Leslie Lamport', 'A. U. Thor and B. Other', 'de la Vall{\\\'e}e Poussin, Charles', 'Zed, Z. and Young, Y. and Xu, X.', 'Aamport, L. A.', 'others']
+AUTHORS = ['Knuth, Donald E.', 'Leslie Lamport', 'A. U. Thor and B. Other', 'de la Vall{\\\'e}e Poussin, Charles', 'Zed, Z. and Young, Y. and Xu, X.', 'Aamport, L. A.', 'Knuth, Donald E. and others']
 TITLES = ['The Art of Things', 'On the electrodynamics of moving bodies', 'A {GNU} Manual', 'zebra crossing', 'An Introduction', 'Lower bounds: a survey', 'The Art of Things']
 RKEYS = ['knuth', 'lam94', 'thor', 'vp', 'zed', 'Aamport', 'proc1', 'proc2', 'book9']
 RTYPES = ['article', 'book', 'inproceedings', 'incollection', 'misc', 'techreport', 'inbook', 'proceedings', 'phdthesis', 'unpublished', 'weird']
@@ -587,7 +595,8 @@ def real_entry(rng, key, parents):
     f = []
     def add(n, v, p=0.8):
         if rng.random() < p: f.append([n, v])
-    add('author', rng.choice(AUTHORS), 0.85)
+    if typ != 'proceedings':     # a @proceedings entry has editors, not authors (with both, jurabib.bst pops an empty stack: see notes)
+        add('author', rng.choice(AUTHORS), 0.85)
     add('title', rng.choice(TITLES), 0.9)
     add('year', rng.choice(['1984', '1994', '1994', '2001', '']), 0.85)
     add('journal', rng.choice(['J. Irrepr. Res.', 'Annals of Improbability']), 0.5)
@@ -600,7 +609,7 @@ def real_entry(rng, key, parents):
     add('key', 'Kk', 0.1)
     add('institution', 'MIT', 0.2); add('school', 'ETH', 0.2); add('chapter', '3', 0.2)
     f = [x for x in f if x[1] != '']
-    if parents and rng.random() < 0.4:
+    if parents and rng.random() < 0.4 and typ != 'proceedings':      # (inherited author + editor: same jurabib.bst quirk)
         f.append(['crossref', rng.choice(parents)])
     return [key, typ, f]
 
@@ -756,3 +765,51 @@ def nontrivial(fn, arg, out):
     if fn == 5:
         return True
     return len(out) > 0
+
+# ----------------------------------------------------------------------------------------
+# command-line plumbing (pybtex/__main__.py PybtexCommandLine.run): `pybtex [options] file` must do what the
+# explicit call with the same style / format / min_crossrefs does.  Oracle only (no model): a few dozen runs.
+def _cli_run(argv):
+    from pybtex import errors
+    from pybtex.__main__ import PybtexCommandLine
+    cl = PybtexCommandLine()
+    options, args = cl.opt_parser.parse_args(cl.recognize_legacy_optons(list(argv)))
+    with errors.capture():
+        cl.run(*args, **cl._extract_kwargs(options))
+
+def extra_checks(ck, tier, rng):
+    from pybtex import errors
+    import pybtex.bibtex as B
+    fails, n = [], 0
+    for i in range(12 if tier == 'quick' else 60):
+        style, other = rng.sample(['dump', 'bytitle', 'rev', 'byyear', 'count', 'types'], 2)
+        db = rand_db(rng, dups=False); ydb = rand_db(rng, dups=False)
+        cites = [c for c in rand_cites(rng) if c]
+        if i % 3 == 0:      # databases on which min_crossrefs 1 / 2 / 3 give three different bibliographies
+            db = [['c1', 'inbook', [['title', 'T'], ['crossref', 'p']]], ['c2', 'inbook', [['crossref', 'p']]], ['p', 'book', [['title', 'Zed']]],
+                  ['c3', 'inbook', [['crossref', 'q']]], ['q', 'book', [['year', '1999']]]]
+            ydb = [[k, t, f] for k, t, f in db]
+            cites = ['c1', 'c3', 'c2'] if i % 2 else ['c3', 'c2', 'c1']
+        variants = [(['doc.aux'], style, 0, 2), (['doc'], style, 0, 2), (['-s', other, 'doc.aux'], other, 0, 2),
+                    (['--style=' + other, '-f', 'yaml', 'doc'], other, 1, 2), (['-f', 'yaml', 'doc.aux'], style, 1, 2),
+                    (['--min-crossrefs=1', 'doc.aux'], style, 0, 1), (['-min-crossrefs=3', 'doc'], style, 0, 3),
+                    (['-f', 'bibtex', '--min-crossrefs', '1', '-s', other, 'doc.aux'], other, 0, 1)]
+        with U.scratch():
+            _write_files(norm([bst_file(style), bst_file(other), ['db0.bib', 2, [0, db]], ['db0.yaml', 2, [1, ydb]],
+                               ['doc.aux', 0, aux_lines(cites, style, ['db0'])]]))
+            for argv, sty, fmt, m in variants:
+                n += 1
+                try:
+                    with errors.capture():
+                        want = B.format_from_files(['db0' + U.SUFFIX[fmt]], style=sty, citations=list(cites), bib_format=U.parser_of(fmt), min_crossrefs=m)
+                    if os.path.exists('doc.bbl'):
+                        os.unlink('doc.bbl')
+                    _cli_run(argv)
+                    got = open('doc.bbl', encoding='utf-8', newline='').read()
+                except Exception as e:
+                    fails.append(('pybtex ' + ' '.join(argv), 'raised %r' % (e,), True)); continue
+                if got != want:
+                    fails.append(('pybtex ' + ' '.join(argv), 'doc.bbl differs from the explicit call (style %s, format %s, min_crossrefs %d): %r vs %r; bib %r, citations %r'
+                                  % (sty, U.SUFFIX[fmt], m, got[:200], want[:200], U.bib_text(norm(db))[:300], cites), True))
+    yield {'name': 'command_line_plumbing', 'evaluations': n, 'failures': fails[:5],
+           'info': 'pybtex [-s style] [-f format] [--min-crossrefs n] file[.aux] writes what format_from_files(style, format, min_crossrefs) returns'}
